@@ -27,12 +27,14 @@ import (
 )
 
 type Case struct {
-	Kind  string     `json:"kind"` // "ready" | "renew"
+	Kind  string     `json:"kind"` // "ready" | "renew" | "ta"
 	Ready *RScenario `json:"ready,omitempty"`
 	Renew *NScenario `json:"renew,omitempty"`
+	TA    *TScenario `json:"ta,omitempty"`
 }
 
 type runner struct {
+	roots    *taRoots
 	f        lib.Flags
 	res      *lib.Result
 	drv      *lib.Drv
@@ -40,6 +42,7 @@ type runner struct {
 	settle   time.Duration
 	deadline time.Duration
 	n        int
+	nta      int
 }
 
 func (r *runner) ask(line string) (string, bool) {
@@ -164,6 +167,47 @@ func (r *runner) doRenew(sc NScenario, label string) {
 	}
 }
 
+func (r *runner) doTA(sc TScenario) {
+	if r.roots == nil {
+		r.roots = newTARoots(3)
+	}
+	work := filepath.Join(r.f.Work, fmt.Sprintf("c19-ta-%d", r.res.Evaluations))
+	o := runTA(sc, r.roots, work, 2*time.Millisecond, r.deadline)
+	c := Case{Kind: "ta", TA: &sc}
+	for _, v := range monitorTA(sc, o) {
+		r.res.Violate(v.ID, v.What, c)
+	}
+	// non-trivial: a reader or Watch call is made before Run has made the source ready
+	nontrivial := false
+	seenUp := false
+	for _, e := range o.Events {
+		if strings.HasPrefix(e, "ret:") && strings.Contains(e, ":b") || strings.HasPrefix(e, "rret") {
+			seenUp = true
+		}
+		if (e == "cb" || e == "ca" || e == "cw") && !seenUp {
+			nontrivial = true
+		}
+	}
+	r.res.Count("ta:"+sc.String(), nontrivial)
+	r.res.Hit("ta:scenarios")
+	for _, v := range o.Rets {
+		r.res.Hit("ta:ret-" + strings.TrimRight(v, "0123456789"))
+	}
+	if len(o.Pending) > 0 {
+		r.res.Hit("ta:ends-with-pending-calls")
+	}
+	if ans, ok := r.ask("ta ev=" + strings.Join(o.Events, ",")); ok {
+		r.res.Traces++
+		if !strings.HasPrefix(ans, "accept") {
+			r.res.Disagree("trust-bundle source LTS trace inclusion (KitModel.SpiffeTA.accept)", c, ans, strings.Join(o.Events, ","))
+		}
+	}
+	if r.nta < 2 {
+		r.res.Sample(map[string]any{"case": c, "events": o.Events})
+		r.nta++
+	}
+}
+
 func bucket(n int) string {
 	switch {
 	case n <= 1:
@@ -177,7 +221,27 @@ func bucket(n int) string {
 	}
 }
 
+func probeTA() {
+	roots := newTARoots(3)
+	t := func(ops ...TOp) TScenario { return TScenario{Ops: ops} }
+	for _, sc := range []TScenario{
+		t(TOp{Op: "file", V: 1}, TOp{Op: "run"}, TOp{Op: "bundle"}, TOp{Op: "anchors"}, TOp{Op: "q"}, TOp{Op: "file", V: 2}, TOp{Op: "bundle"}, TOp{Op: "stop"}, TOp{Op: "bundle"}),
+		t(TOp{Op: "bundle"}, TOp{Op: "anchors"}, TOp{Op: "watch"}, TOp{Op: "run"}, TOp{Op: "q"}, TOp{Op: "file", V: 1}, TOp{Op: "q"}, TOp{Op: "file", V: 3}, TOp{Op: "q"}),
+		t(TOp{Op: "bundle"}, TOp{Op: "file", V: 0}, TOp{Op: "run"}, TOp{Op: "anchors"}),
+		t(TOp{Op: "bundle"}, TOp{Op: "anchorsc"}, TOp{Op: "cancel", I: 1}, TOp{Op: "q"}),
+		t(TOp{Op: "run"}, TOp{Op: "bundle"}, TOp{Op: "stop"}, TOp{Op: "anchors"}),
+	} {
+		t0 := time.Now()
+		o := runTA(sc, roots, "/tmp/c19-ta-probe", 2*time.Millisecond, 400*time.Millisecond)
+		fmt.Printf("%s\n  -> %v pending=%v run=%s watched=%v (%v)\n", sc, o.Events, o.Pending, o.RunRet, o.Watched, time.Since(t0))
+	}
+}
+
 func main() {
+	if len(os.Args) > 1 && os.Args[1] == "probeta" {
+		probeTA()
+		return
+	}
 	f := lib.ParseFlags()
 	res := lib.NewResult("readiness: a consumer call is made before the issuer answers the initial request, or a reader is parked at the hook holding the read lock; renewal: at least two issuer requests (a renewal or retry happened)")
 	if f.Work == "" {
@@ -209,6 +273,8 @@ func main() {
 			r.doReady(*rp.Case.Ready)
 		} else if rp.Case.Kind == "renew" && rp.Case.Renew != nil {
 			r.doRenew(*rp.Case.Renew, "replay")
+		} else if rp.Case.Kind == "ta" && rp.Case.TA != nil {
+			r.doTA(*rp.Case.TA)
 		}
 		res.Write(f.Out)
 		return
@@ -268,6 +334,33 @@ func main() {
 		r.doReady(randomReady(rng.Fork()))
 	}
 	res.Exhaustive = true // all orders of first calls for the listed shapes
+
+	// ---- trust-bundle source: every order of first calls of Run / file appearing / readers / Watch
+	taShapes := [][3]int{{1, 1, 0}, {1, 0, 1}, {2, 0, 0}}
+	if f.Tier == "thorough" || f.Search {
+		taShapes = append(taShapes, [3]int{1, 1, 1}, [3]int{2, 1, 0}, [3]int{0, 2, 1})
+	}
+	for _, sh := range taShapes {
+		for _, order := range taFirstCallOrders(sh[0], sh[1], sh[2]) {
+			r.doTA(taBuild(order, true))
+			if f.Tier == "thorough" || f.Search {
+				r.doTA(taBuild(order, false))
+			}
+		}
+	}
+	for _, sc := range specialTA() {
+		r.doTA(sc)
+	}
+	nTA := 15
+	if f.Tier == "thorough" {
+		nTA = 150
+	}
+	if f.Search {
+		nTA = 600
+	}
+	for i := 0; i < nTA; i++ {
+		r.doTA(randomTA(rng.Fork()))
+	}
 
 	// ---- renewal
 	r.n = 4
